@@ -18,6 +18,7 @@ def corpus(tier, seed):
         g.home = home
         g.events = True
         g.arrays = True
+        g.oddstrings = True
         g.casevars = (k % 3 == 1)
         g.no_division = False
         body = g.program(nstmts=rnd.randint(2, 7), setup=(k % 3 == 0), final_return=(home not in ('derived', 'state', 'transition')))
